@@ -368,8 +368,13 @@ func (cf *confEnv) multiSiteMutants(sp *spend, n int) {
 		var desc []string
 		allDead := true
 		first := ""
+		used := map[int]bool{}
 		for j := 0; j < 2+r.Intn(2); j++ {
 			si := r.Intn(len(cs))
+			if used[si] { // two operations on one site can cancel each other
+				continue
+			}
+			used[si] = true
 			ops := opsFor(cs[si])
 			op := ops[r.Intn(len(ops))]
 			ok := false
